@@ -82,6 +82,7 @@ def Tok.truthy : Tok → Bool
   | .n v => v != 0
   | .g ts => !ts.isEmpty
   | .nm _ _ _ ts => !ts.isEmpty
+  | .hid _ => false
 
 /-- `out = [o for o in out if o]` drops falsy top-level items (empty strings/lists, the integer 0) -/
 def transformPieces (s : List Char) : List Match → Nat → List Char
